@@ -225,4 +225,51 @@ theorem inv_holder {s s' : Sys} {t : Nat} {th th' : Thr} (hi : Inv s) (hget : s.
       exact (hi.res _ _ hb r hr).mono hmono hmono2
   · rw [hpar]; exact hi.repack
 
+/-! ### the multi-datagram monitor (Spec.Threads.MonM) simulates the one-reply monitor -/
+
+/-- simulation between the one-reply monitor and the multi-datagram monitor -/
+def SimM (m : Mon) (mm : MonM) : Prop :=
+  m.ntx = mm.ntx ∧ (m.exch = true → mm.ok = true ∧
+    ((m.opn = mm.opn ∧ mm.answered = false) ∨ (m.opn = none ∧ mm.answered = true)))
+
+theorem simM_step (m : Mon) (mm : MonM) (e : WEv) (h : SimM m mm) : SimM (m.step e) (mm.step e) := by
+  obtain ⟨hn, hx⟩ := h
+  cases e with
+  | tx t n s r c =>
+    refine ⟨by simp [Mon.step, MonM.step, hn], fun he => ?_⟩
+    simp only [Mon.step, Bool.and_eq_true, beq_iff_eq] at he
+    obtain ⟨⟨he, ho⟩, hnn⟩ := he
+    obtain ⟨hok, hd⟩ := hx he
+    have hnone : m.opn = none := by cases hm : m.opn <;> simp_all
+    refine ⟨?_, Or.inl ⟨rfl, rfl⟩⟩
+    simp only [MonM.step, Bool.and_eq_true, Bool.or_eq_true, beq_iff_eq]
+    refine ⟨⟨hok, ?_⟩, by omega⟩
+    rcases hd with ⟨h1, _⟩ | ⟨_, h2⟩
+    · left; rw [← h1, hnone]; rfl
+    · right; exact h2
+  | rx t n =>
+    refine ⟨by simp [Mon.step, MonM.step, hn], fun he => ?_⟩
+    simp only [Mon.step, Bool.and_eq_true, beq_iff_eq] at he
+    obtain ⟨he, ho⟩ := he
+    obtain ⟨hok, hd⟩ := hx he
+    rcases hd with ⟨h1, _⟩ | ⟨h2, _⟩
+    · refine ⟨?_, Or.inr ⟨rfl, rfl⟩⟩
+      simp [MonM.step, hok, ← h1, ho]
+    · rw [h2] at ho; cases ho
+  | to t n =>
+    refine ⟨by simp [Mon.step, MonM.step, hn], fun he => ?_⟩
+    simp only [Mon.step, Bool.and_eq_true, beq_iff_eq] at he
+    obtain ⟨he, ho⟩ := he
+    obtain ⟨hok, hd⟩ := hx he
+    rcases hd with ⟨h1, _⟩ | ⟨h2, _⟩
+    · refine ⟨?_, Or.inl ⟨rfl, rfl⟩⟩
+      simp [MonM.step, hok, ← h1, ho]
+    · rw [h2] at ho; cases ho
+
+theorem simM_fold (w : List WEv) (m : Mon) (mm : MonM) (h : SimM m mm) :
+    SimM (w.foldl Mon.step m) (w.foldl MonM.step mm) := by
+  induction w generalizing m mm with
+  | nil => exact h
+  | cons e w ih => exact ih _ _ (simM_step m mm e h)
+
 end PyIpmi.Threads
